@@ -25,6 +25,7 @@ from __future__ import annotations
 
 import pickle
 import threading
+import time
 from typing import Any, Callable, Dict, List, Optional, Tuple
 
 
@@ -502,7 +503,8 @@ def run_schedule(kinds, workers, prefix: List[int], complete: bool = True,
 
 
 def all_schedules(kinds, workers, coarse: Optional[frozenset] = None, root: Optional[List[int]] = None,
-                  lo: int = 0, hi: Optional[int] = None, limit: Optional[int] = None, gate_fin: bool = False):
+                  lo: int = 0, hi: Optional[int] = None, limit: Optional[int] = None, gate_fin: bool = False,
+                  deadline: Optional[float] = None):
     """Stateless depth-first enumeration of the maximal schedules of the real code (only
     enabled threads are scheduled) that start with `root`; alternatives are explored at
     step positions lo <= k < hi only.  Yields (choices, system)."""
@@ -513,6 +515,8 @@ def all_schedules(kinds, workers, coarse: Optional[frozenset] = None, root: Opti
         yield [c[0][c[1]] for c in ch], sysm
         n += 1
         if limit is not None and n >= limit:
+            return
+        if deadline is not None and time.time() > deadline:
             return
         k = min(len(ch), hi if hi is not None else len(ch)) - 1
         while k >= lo and ch[k][1] + 1 >= len(ch[k][0]):
@@ -540,25 +544,30 @@ def observe(sysm: System) -> Dict[str, Any]:
     }
 
 
-SUBTREE_LIMIT = 60000  # safety valve: a changed protocol may have vastly more interleavings
+SUBTREE_LIMIT = 400000  # safety valves: a changed protocol may have vastly more interleavings
 
 
 def _subtree(args):
-    kinds, workers, coarse, root, depth, gate = args
-    out = [observe(sm) for _, sm in all_schedules(kinds, workers, coarse, root=root, lo=depth, gate_fin=gate,
-                                                  limit=SUBTREE_LIMIT)]
-    return out
+    kinds, workers, coarse, root, depth, gate, deadline = args
+    out = []
+    for _, sm in all_schedules(kinds, workers, coarse, root=root, lo=depth, gate_fin=gate,
+                               limit=SUBTREE_LIMIT, deadline=deadline):
+        out.append(observe(sm))
+    cut = len(out) >= SUBTREE_LIMIT or (deadline is not None and time.time() > deadline)
+    return out, cut
 
 
 def enumerate_all(kinds, workers, coarse: Optional[frozenset] = None, procs: int = 1, depth: int = 5,
-                  gate_fin: bool = False):
+                  gate_fin: bool = False, budget_s: Optional[float] = None):
     """All maximal schedules, enumerated in `procs` processes (sub-trees below the distinct
     prefixes of length `depth`); result order is deterministic.  Returns (observations,
-    truncated) - truncated iff some sub-tree hit SUBTREE_LIMIT."""
+    truncated) - truncated iff the wall-clock budget (only ever reached when the protocol
+    has far more interleavings than the unchanged one) or SUBTREE_LIMIT cut a sub-tree."""
+    deadline = None if budget_s is None else time.time() + budget_s
     roots = []
-    for ch, _ in all_schedules(kinds, workers, coarse, hi=depth, gate_fin=gate_fin):
+    for ch, _ in all_schedules(kinds, workers, coarse, hi=depth, gate_fin=gate_fin, deadline=deadline):
         roots.append(ch[:depth])
-    tasks = [(kinds, workers, coarse, r, depth, gate_fin) for r in roots]
+    tasks = [(kinds, workers, coarse, r, depth, gate_fin, deadline) for r in roots]
     if procs <= 1:
         parts = [_subtree(t) for t in tasks]
     else:
@@ -566,7 +575,7 @@ def enumerate_all(kinds, workers, coarse: Optional[frozenset] = None, procs: int
 
         with mp.get_context("fork").Pool(min(procs, len(roots))) as pool:
             parts = pool.map(_subtree, tasks, chunksize=1)
-    return [o for part in parts for o in part], any(len(part) >= SUBTREE_LIMIT for part in parts)
+    return [o for part, _ in parts for o in part], any(cut for _, cut in parts)
 
 
 def run_random(kinds, workers, seed: int, stutter_p: float = 0.15, gate_fin: bool = False):
